@@ -49,7 +49,7 @@ Definition corr_tts (x : list (list Z)) (y : list Z) (ts_bits : Z) (indices : li
 (* only the size computation, for large n *)
 Definition corr_n_test (n : N) (ts_bits : Z) (exp_ok : bool) (exp_n_test : N) : bool :=
   let ts := f32_of_bits ts_bits in
-  bool_eqb (ts_ok_f32 ts) exp_ok && N.eqb (N.of_nat (n_test_f32 (N.to_nat n) ts)) exp_n_test.
+  bool_eqb (ts_ok_f32 ts) exp_ok && Z.eqb (n_test_f32_Z (Z.of_N n) ts) (Z.of_N exp_n_test).
 
 (* ---------- the instrumented estimator (the same function is written in the harness) ---------- *)
 Definition rid (r : list Z) : Z := nth 0 r 0%Z.
